@@ -375,6 +375,20 @@ func (m *engineImpl) do1(line string) string {
 		}
 		m.dbf = fh
 		return "ok"
+	case "shmclose", "dbclose": // <owner>: the handle's Flush — UnlockSHM / UnlockDatabase
+		if len(f) != 2 || !m.need() {
+			return "bad-op"
+		}
+		owner, ok1 := atoi(f[1])
+		if !ok1 {
+			return "bad-op"
+		}
+		if f[0] == "shmclose" {
+			m.db.UnlockSHM(ctx, uint64(owner))
+		} else {
+			m.db.UnlockDatabase(ctx, uint64(owner))
+		}
+		return m.withExit("ok")
 	case "lock", "rlock", "unlock", "canlock", "canrlock":
 		if len(f) != 3 || !m.need() {
 			return "bad-op"
